@@ -5,6 +5,7 @@ import Driver.Sem
 import Driver.Trunc
 import Driver.TmplData
 import Driver.Retry
+import Driver.Webhook
 import Driver.Gossip
 import Driver.Mesh
 import Driver.TlsFrame
@@ -17,6 +18,7 @@ def engines : List (String × IO UInt32) := [
   ("trunc", Driver.runEngine Driver.Trunc.engine),
   ("tmpldata", Driver.runEngine Driver.TmplData.engine),
   ("retry", Driver.runEngine Driver.Retry.engine),
+  ("webhook", Driver.runEngine Driver.Webhook.engine),
   ("gossip", Driver.runEngine Driver.Gossip.engine),
   ("mesh", Driver.runEngine Driver.Mesh.engine),
   ("tlsframe", Driver.runEngine Driver.TlsFrame.engine)
